@@ -849,6 +849,12 @@ def rule_implicit_mapping(repo: Repo, rep, rule: str = "R14.14") -> None:
     from_members = any(any(isinstance(x, ast.Attribute) and x.attr in ("__name__", "__qualname__") for x in ast.walk(v)) or any(
         isinstance(c, ast.Call) and (dotted(c.func) or "").endswith("get_args") for c in ast.walk(v)) or any(isinstance(x, ast.Name) and x.id == "args" for x in ast.walk(v))
         for v in alts + ([gm[0].value] if inline_default else []))
+    # ... or filled in a loop: `mapping = {}` and `mapping[<member>.__name__] = <member>`
+    if not from_members:
+        for st in own_nodes(fn.node):
+            if isinstance(st, ast.Assign) and any(isinstance(t, ast.Subscript) and isinstance(t.value, ast.Name) and t.value.id == mv and any(
+                    isinstance(x, ast.Attribute) and x.attr in ("__name__", "__qualname__") for x in ast.walk(t.slice)) for t in st.targets):
+                from_members = True
     if from_members:
         rep.ok(rule, sub, "an empty mapping is replaced by one built from the union's member classes (implicit mapping by schema name)", fn.loc(gm[0]))
     else:
